@@ -1,10 +1,13 @@
-(* The sequential sampler model (Lts/Sampler.v: basic_sample, burst_inc) is equal to the translation of
-   sampler.go's BasicSampler.Sample and BurstSampler.inc that srcgen regenerates on every run (Gen/SamplerSrc.v).
-   A method with a pointer receiver of a struct type becomes a function of the record of the struct's scalar fields that
+(* The sequential sampler model (Lts/Sampler.v: basic_sample, burst_inc, sample) is equal to the translation of
+   sampler.go that srcgen regenerates on every run (Gen/SamplerSrc.v): BasicSampler.Sample, BurstSampler.inc,
+   BurstSampler.Sample, LevelSampler.Sample.
+   A method with a receiver of a struct type becomes a function of the record of the struct's scalar fields that
    returns the updated record next to its result; sync/atomic operations on a field are a read / modify / write of that
    field (the sequential reading of one call; what interleaved calls do is the subject of the concurrent LTS, whose
-   step IS this function); TimestampFunc() is the oracle parameter clk. *)
-From Verif Require Import Base.Prelude Base.GoSem Enc.JsonEnc Enc.GoStd Misc.Level Lts.Sampler Gen.SamplerSrc.
+   step IS this function); TimestampFunc() is the oracle parameter clk; the interface-typed fields (NextSampler, the five
+   per-level samplers) are opaque (Base/GoExt.v): a non-nil flag each, calls through them logged and answered by the
+   environment [ans]. *)
+From Verif Require Import Base.Prelude Base.GoSem Base.GoEff Base.GoExt Enc.JsonEnc Enc.GoStd Misc.Level Lts.Sampler Gen.SamplerSrc.
 Open Scope Z_scope.
 
 Lemma wrapu32_inc c : wrapu 32 (c + 1)%N = inc32 c.
@@ -21,19 +24,111 @@ Proof.
   rewrite wrapu32_inc. reflexivity.
 Qed.
 
-Theorem BurstSampler_inc_src clk burst period cnt resetAt :
-  inc clk {| BurstSampler_Burst := burst; BurstSampler_Period := period; BurstSampler_counter := cnt; BurstSampler_resetAt := resetAt |} =
+Definition burst_rec (burst : N) (period : Z) (hasnext : bool) (cnt : N) (resetAt : Z) (calls : list ocall) : BurstSampler_st :=
+  {| BurstSampler_Burst := burst; BurstSampler_Period := period; BurstSampler_NextSampler := hasnext;
+     BurstSampler_counter := cnt; BurstSampler_resetAt := resetAt; BurstSampler_calls := calls |}.
+
+Theorem BurstSampler_inc_src clk burst period hasnext cnt resetAt calls :
+  inc clk (burst_rec burst period hasnext cnt resetAt calls) =
   Ok (let '(c, cnt', resetAt') := burst_inc period cnt resetAt (t_unixnano clk) in
-      (c, {| BurstSampler_Burst := burst; BurstSampler_Period := period; BurstSampler_counter := cnt'; BurstSampler_resetAt := resetAt' |})).
+      (c, burst_rec burst period hasnext cnt' resetAt' calls)).
 Proof.
-  unfold inc, burst_inc. cbv zeta. cbn [BurstSampler_resetAt].
+  unfold inc, burst_inc, burst_rec. cbv zeta. cbn [BurstSampler_resetAt].
   rewrite Z.geb_leb. destruct (resetAt <=? t_unixnano clk) eqn:E.
   - unfold set_BurstSampler_counter, set_BurstSampler_resetAt.
-    cbn [BurstSampler_Burst BurstSampler_Period BurstSampler_counter BurstSampler_resetAt].
+    cbn [BurstSampler_Burst BurstSampler_Period BurstSampler_NextSampler BurstSampler_counter BurstSampler_resetAt BurstSampler_calls].
     rewrite Z.eqb_refl. cbn [negb]. reflexivity.
-  - unfold set_BurstSampler_counter. cbn [BurstSampler_Burst BurstSampler_Period BurstSampler_counter BurstSampler_resetAt].
+  - unfold set_BurstSampler_counter.
+    cbn [BurstSampler_Burst BurstSampler_Period BurstSampler_NextSampler BurstSampler_counter BurstSampler_resetAt BurstSampler_calls].
     rewrite wrapu32_inc. reflexivity.
 Qed.
 
-Lemma sampler_counts : length SamplerSrc.translated_functions = 2%nat /\ length SamplerSrc.skipped_functions = 3%nat.
+Definition next_call (lvl : Z) : ocall := OCall [78;101;120;116;83;97;109;112;108;101;114]%N [83;97;109;112;108;101]%N [OVInt lvl].
+
+(* BurstSampler.Sample: inside the burst -> admitted without asking; otherwise the next sampler decides (reject if
+   none).  [ans] answers the next sampler's verdict when it is consulted. *)
+Theorem BurstSampler_Sample_src (ans : nat -> oval) clk burst period next cnt resetAt calls lvl :
+  (forall nx, next = Some nx -> ans (length calls) = OVBool (fst (sample nx (t_unixnano clk) lvl))) ->
+  let hasnext := match next with Some _ => true | None => false end in
+  exists cnt' resetAt' calls',
+    BurstSampler_Sample ans clk (burst_rec burst period hasnext cnt resetAt calls) lvl =
+      Ok (fst (sample (SBurst burst period next cnt resetAt) (t_unixnano clk) lvl), burst_rec burst period hasnext cnt' resetAt' calls') /\
+    (match snd (sample (SBurst burst period next cnt resetAt) (t_unixnano clk) lvl) with
+     | SBurst _ _ _ c r => c = cnt' /\ r = resetAt' | _ => False end) /\
+    (calls' = calls \/ calls' = calls ++ [next_call lvl]).
+Proof.
+  intros Hans hasnext. unfold BurstSampler_Sample. cbv zeta.
+  change (BurstSampler_Burst (burst_rec burst period hasnext cnt resetAt calls)) with burst.
+  change (BurstSampler_Period (burst_rec burst period hasnext cnt resetAt calls)) with period.
+  cbn [sample].
+  assert (Hnext : forall c r, exists calls',
+     (if negb (BurstSampler_NextSampler (burst_rec burst period hasnext c r calls)) then Ok (false, burst_rec burst period hasnext c r calls)
+      else (let o1 := ans (length (BurstSampler_calls (burst_rec burst period hasnext c r calls))) in
+            let s := set_BurstSampler_calls (burst_rec burst period hasnext c r calls)
+                       (BurstSampler_calls (burst_rec burst period hasnext c r calls) ++ [next_call lvl]) in
+            Ok (oval_bool o1, s))) =
+     Ok (fst (match next with
+              | None => (false, SBurst burst period None c r)
+              | Some nx => let '(rr, nx') := sample nx (t_unixnano clk) lvl in (rr, SBurst burst period (Some nx') c r)
+              end), burst_rec burst period hasnext c r calls') /\
+     (match snd (match next with
+              | None => (false, SBurst burst period None c r)
+              | Some nx => let '(rr, nx') := sample nx (t_unixnano clk) lvl in (rr, SBurst burst period (Some nx') c r)
+              end) with SBurst _ _ _ c0 r0 => c0 = c /\ r0 = r | _ => False end) /\
+     (calls' = calls \/ calls' = calls ++ [next_call lvl])).
+  { intros c r. unfold hasnext. destruct next as [nx|]; cbn [burst_rec BurstSampler_NextSampler BurstSampler_calls negb].
+    - cbv zeta. rewrite (Hans nx eq_refl). destruct (sample nx (t_unixnano clk) lvl) as [rr nx']. cbn [fst snd oval_bool].
+      exists (calls ++ [next_call lvl]). split; [reflexivity|]. split; [split; reflexivity|right; reflexivity].
+    - exists calls. split; [reflexivity|]. split; [split; reflexivity|left; reflexivity]. }
+  destruct ((0 <? burst)%N && (0 <? period)) eqn:Eb.
+  - rewrite BurstSampler_inc_src. destruct (burst_inc period cnt resetAt (t_unixnano clk)) as [[c cnt'] resetAt'] eqn:Ei.
+    cbn [bind]. change (BurstSampler_Burst (burst_rec burst period hasnext cnt' resetAt' calls)) with burst.
+    destruct (c <=? burst)%N.
+    + exists cnt', resetAt', calls. cbn [fst snd]. split; [reflexivity|]. split; [split; reflexivity|left; reflexivity].
+    + destruct (Hnext cnt' resetAt') as (calls' & E & Hs & Hc). exists cnt', resetAt', calls'. split; [exact E|]. split; [exact Hs|exact Hc].
+  - destruct (Hnext cnt resetAt) as (calls' & E & Hs & Hc). exists cnt, resetAt, calls'. split; [exact E|]. split; [exact Hs|exact Hc].
+Qed.
+
+(* LevelSampler.Sample: the sampler configured for the event's level decides; a level without a configured sampler -
+   any of the 256 levels - is admitted *)
+Definition level_rec (t d i w e : bool) (calls : list ocall) : LevelSampler_st :=
+  {| LevelSampler_TraceSampler := t; LevelSampler_DebugSampler := d; LevelSampler_InfoSampler := i;
+     LevelSampler_WarnSampler := w; LevelSampler_ErrorSampler := e; LevelSampler_calls := calls |}.
+Definition is_some {A} (o : option A) : bool := match o with Some _ => true | None => false end.
+
+Theorem LevelSampler_Sample_src (ans : nat -> oval) now t d i w e calls lvl :
+  (forall x, (lvl = TraceLevel /\ t = Some x) \/ (lvl = DebugLevel /\ d = Some x) \/ (lvl = InfoLevel /\ i = Some x) \/
+             (lvl = WarnLevel /\ w = Some x) \/ (lvl = ErrorLevel /\ e = Some x) ->
+             ans (length calls) = OVBool (fst (sample x now lvl))) ->
+  exists calls', LevelSampler_Sample ans (level_rec (is_some t) (is_some d) (is_some i) (is_some w) (is_some e) calls) lvl =
+    Ok (fst (sample (SLevel t d i w e) now lvl), level_rec (is_some t) (is_some d) (is_some i) (is_some w) (is_some e) calls').
+Proof.
+  intros Hans. unfold LevelSampler_Sample. cbv zeta. cbn [sample].
+  change TraceLevel with (-1) in *. change DebugLevel with 0 in *. change InfoLevel with 1 in *.
+  change WarnLevel with 2 in *. change ErrorLevel with 3 in *.
+  unfold level_rec. cbn [LevelSampler_TraceSampler LevelSampler_DebugSampler LevelSampler_InfoSampler LevelSampler_WarnSampler LevelSampler_ErrorSampler LevelSampler_calls].
+  destruct (lvl =? -1) eqn:E1.
+  { apply Z.eqb_eq in E1. destruct t as [x|]; cbn [is_some].
+    - rewrite (Hans x) by tauto. destruct (sample x now lvl). eexists. cbn. reflexivity.
+    - eexists. reflexivity. }
+  destruct (lvl =? 0) eqn:E2.
+  { apply Z.eqb_eq in E2. destruct d as [x|]; cbn [is_some].
+    - rewrite (Hans x) by tauto. destruct (sample x now lvl). eexists. cbn. reflexivity.
+    - eexists. reflexivity. }
+  destruct (lvl =? 1) eqn:E3.
+  { apply Z.eqb_eq in E3. destruct i as [x|]; cbn [is_some].
+    - rewrite (Hans x) by tauto. destruct (sample x now lvl). eexists. cbn. reflexivity.
+    - eexists. reflexivity. }
+  destruct (lvl =? 2) eqn:E4.
+  { apply Z.eqb_eq in E4. destruct w as [x|]; cbn [is_some].
+    - rewrite (Hans x) by tauto. destruct (sample x now lvl). eexists. cbn. reflexivity.
+    - eexists. reflexivity. }
+  destruct (lvl =? 3) eqn:E5.
+  { apply Z.eqb_eq in E5. destruct e as [x|]; cbn [is_some].
+    - rewrite (Hans x) by tauto. destruct (sample x now lvl). eexists. cbn. reflexivity.
+    - eexists. reflexivity. }
+  eexists. reflexivity.
+Qed.
+
+Lemma sampler_counts : length SamplerSrc.translated_functions = 4%nat /\ length SamplerSrc.skipped_functions = 1%nat.
 Proof. split; reflexivity. Qed.
